@@ -107,12 +107,15 @@ ClientRecv(r, status, complete, idhdr) ==                              \* [D]
 \* The client sees its connection end without a response.  Legitimate only
 \* when (a) a handler on that connection panicked (HTTP/1: the connection
 \* dies with it, and pipelined followers are lost -- DESIGN section 8 rule 5),
-\* or (b) the request had not been started when shutdown began.
+\* or (b) the request's handler had not started when shutdown was requested.
 ClientNoResponse(r) ==                                                 \* [D]
   /\ rq[r].conn # NoConn
   /\ rq[r].recv = "no"
   /\ \/ \E r2 \in Req : rq[r2].conn = rq[r].conn /\ rq[r2].h = "panicked"
-     \/ srv.closeReq /\ rq[r].stage = "none"
+     \* shutdown had been requested and the request's handler never started (C17 promises a response to
+     \* requests whose handler had started; one that raced with the start of shutdown may be dropped by
+     \* the transport even though the framework had already refused it: observed with HTTP/2 over TLS)
+     \/ srv.closeReq /\ rq[r].h \in {"none", "skipped"}
      \/ ClientGone(r)                           \* the client itself gave up
   /\ rq' = [rq EXCEPT ![r].recv = "none"]
   /\ UNCHANGED <<cst, srv, wg, usedIds>>
@@ -120,7 +123,7 @@ ClientNoResponse(r) ==                                                 \* [D]
 \* The driver gave up waiting for a request that the server never picked up:
 \* legitimate only if shutdown had been requested before the request was
 \* started (DESIGN section 8 rule 6).
-NeverServed(r) == srv.closeReq /\ rq[r].stage = "none"
+NeverServed(r) == srv.closeReq /\ rq[r].h \in {"none", "skipped"}
 
 \* ------------------------------------------------------------------- server
 Accept(c) ==                                                           \* [F] accept
